@@ -46,6 +46,12 @@ type job struct {
 	// Upstream = [shard, rows]: the source of that shard fails after that many rows.
 	Upstream []int `json:"upstream,omitempty"`
 	Plain    bool  `json:"plain,omitempty"` // run the uncached program (op none)
+	// Reuse: after the run and the scan of its result, the result is discarded
+	// (Result.Discard: "if the results are needed by another computation, they will be
+	// recomputed") and handed to a second Func in the same session, which makes the
+	// session evaluate the same compiled tasks a second time. On the cluster one
+	// machine is used, so that the re-evaluation lands on the worker that ran them.
+	Reuse bool `json:"reuse,omitempty"`
 	// Tries > 1 (fault-free runs only): a failed run is repeated, on a fresh copy of the
 	// same files, up to Tries times; only a run that fails every time is reported as
 	// failed (an overloaded machine makes the in-process cluster lose tasks).
@@ -63,6 +69,14 @@ type runObs struct {
 	Crashed  bool           `json:"crashed,omitempty"`
 	Before   []int          `json:"before"` // shards whose file existed when the run started
 	Ms       int64          `json:"ms"`
+	Reuse    *reuseObs      `json:"reuse,omitempty"`
+}
+
+// reuseObs: the second evaluation (Discard, then Run(consumer, result)).
+type reuseObs struct {
+	OK   bool     `json:"ok"`
+	Err  string   `json:"err,omitempty"`
+	Rows []string `json:"rows"`
 }
 
 // fileObs is what reading one shard file directly (the way the cache reader does)
@@ -129,7 +143,7 @@ func setupProcess() {
 
 // runOnce runs the program once in a fresh session with the cache prefix on vol.
 // It returns nil if the run did not come back within hangAfter.
-func runOnce(p prog, op, kind string, vol *vfs.FS, upstream []int) *runObs {
+func runOnce(p prog, op, kind string, vol *vfs.FS, upstream []int, reuse bool) *runObs {
 	tag := int(atomic.AddInt64(&tagSeq, 1))
 	obs := &runObs{Rows: []string{}}
 	for rel := range vol.Files() {
@@ -148,12 +162,31 @@ func runOnce(p prog, op, kind string, vol *vfs.FS, upstream []int) *runObs {
 		sess = exec.Start(exec.Local, exec.Parallelism(4))
 	} else {
 		sys = vsys.New(2)
-		sess = exec.Start(exec.Bigmachine(sys), exec.Parallelism(4))
+		par := 4
+		if reuse {
+			par = 1 // one machine
+		}
+		sess = exec.Start(exec.Bigmachine(sys), exec.Parallelism(par))
 	}
 	t0 := time.Now()
 	type out struct {
-		rows []string
-		err  error
+		rows  []string
+		err   error
+		reuse *reuseObs
+	}
+	scan := func(ctx context.Context, res *exec.Result) ([]string, error) {
+		sc := res.Scanner()
+		var (
+			k    string
+			v    int
+			rows = []string{}
+		)
+		for sc.Scan(ctx, &k, &v) {
+			rows = append(rows, row{k, v}.String())
+		}
+		err := sc.Err()
+		sc.Close()
+		return rows, err
 	}
 	done := make(chan out, 1)
 	go func() {
@@ -164,25 +197,34 @@ func runOnce(p prog, op, kind string, vol *vfs.FS, upstream []int) *runObs {
 		}
 		res, err := sess.Run(ctx, fProg, tag, p.Shape, op, prefix, p.Data, failShard, failAfter)
 		if err != nil {
-			done <- out{nil, err}
+			done <- out{nil, err, nil}
 			return
 		}
-		sc := res.Scanner()
-		var (
-			k    string
-			v    int
-			rows = []string{}
-		)
-		for sc.Scan(ctx, &k, &v) {
-			rows = append(rows, row{k, v}.String())
+		rows, err := scan(ctx, res)
+		if err != nil || !reuse {
+			done <- out{rows, err, nil}
+			return
 		}
-		err = sc.Err()
-		sc.Close()
-		done <- out{rows, err}
+		ro := &reuseObs{Rows: []string{}}
+		res.Discard(ctx)
+		res2, err2 := sess.Run(ctx, fConsume, tag, res)
+		if err2 == nil {
+			ro.Rows, err2 = scan(ctx, res2)
+		}
+		if err2 != nil {
+			ro.Err = err2.Error()
+			if len(ro.Err) > 600 {
+				ro.Err = ro.Err[:600] + "..."
+			}
+		} else {
+			ro.OK = true
+		}
+		done <- out{rows, nil, ro}
 	}()
 	select {
 	case o := <-done:
 		obs.Rows = o.rows
+		obs.Reuse = o.reuse
 		if obs.Rows == nil {
 			obs.Rows = []string{}
 		}
@@ -288,7 +330,7 @@ func runJob(j *job) *result {
 		for _, f := range j.Faults {
 			vol.FailAt(f.Label, f.Mode)
 		}
-		res.Run = runOnce(j.Prog, op, j.Exec, vol, j.Upstream)
+		res.Run = runOnce(j.Prog, op, j.Exec, vol, j.Upstream, j.Reuse)
 		if res.Run == nil {
 			res.Hang = true
 			return res
@@ -298,13 +340,23 @@ func runJob(j *job) *result {
 		// -- a real process exit would have ended them -- cannot touch its files.)
 		snap := vol.Files()
 		vol.Reset()
-		if !res.Run.OK && res.Attempts < tries {
-			res.Flaky = append(res.Flaky, res.Run.Err)
+		if failed, msg := runFailed(res.Run); failed && res.Attempts < tries {
+			res.Flaky = append(res.Flaky, msg)
 			continue
 		}
 		res.After, res.Extra = inspect(snap)
 		return res
 	}
+}
+
+func runFailed(o *runObs) (bool, string) {
+	if !o.OK {
+		return true, o.Err
+	}
+	if o.Reuse != nil && !o.Reuse.OK {
+		return true, "reuse: " + o.Reuse.Err
+	}
+	return false, ""
 }
 
 // childMain: one JSON job per input line, one JSON result per output line.
